@@ -369,3 +369,5 @@ func argvAny(a []string) []any {
 
 func base64Std(s string) ([]byte, error) { return base64.StdEncoding.DecodeString(s) }
 func base64StdEnc(s string) string       { return base64.StdEncoding.EncodeToString([]byte(s)) }
+
+func bytesReader(b []byte) *strings.Reader { return strings.NewReader(string(b)) }
